@@ -19,6 +19,7 @@ fn usage() -> ! {
 
 fn run_check(id: &str, tier: Tier) -> Option<Report> {
     Some(match id {
+        "C01" => checks::c01::run(tier),
         "C02" => checks::c02::run(tier),
         "C04" => checks::c04::run(tier),
         "C06" => checks::c06::run(tier),
@@ -29,6 +30,7 @@ fn run_check(id: &str, tier: Tier) -> Option<Report> {
 
 fn replay_case(id: &str, case: &Value) -> Option<Vec<Failure>> {
     Some(match id {
+        "C01" => checks::c01::replay(case),
         "C02" => checks::c02::replay(case),
         "C04" => checks::c04::replay(case),
         "C06" => checks::c06::replay(case),
@@ -58,6 +60,12 @@ fn main() {
                     eprintln!("MACHINERY-ERROR unknown check {}", id);
                     std::process::exit(2)
                 }
+            }
+        }
+        "baseline" => {
+            match args[2].as_str() {
+                "C01" => checks::c01::write_baseline(),
+                _ => usage(),
             }
         }
         "replay" => {
